@@ -350,6 +350,10 @@ pub struct Tweaks {
     /// that an asset's total is spread over two outputs
     #[serde(default)]
     pub phantom_first: Vec<(u8, u8, u64)>,
+    /// extra native scripts (CBOR items) appended to the witness set's native-script list: nobody needs them, but a
+    /// validator evaluates or at least decodes what it is given
+    #[serde(default)]
+    pub extra_native_scripts: Vec<Vec<u8>>,
     /// the collateral return (Babbage+, needs plutus + collateral_return) carries a one-asset bundle of this quantity
     /// (0 included: the legacy `[address, value]` layout decodes a zero quantity)
     #[serde(default)]
@@ -548,8 +552,13 @@ pub fn forge_with(spec: &Spec, tw: &Tweaks) -> Result<Forged, String> {
     });
     // ---- witness-set parts that do not depend on the body ----
     let mut wit_extra: Vec<(u64, Node)> = vec![];
-    if !mint_policies.is_empty() {
-        let scripts: Vec<Node> = mint_policies.iter().map(|p| native_script(*p)).collect();
+    if !mint_policies.is_empty() || !tw.extra_native_scripts.is_empty() {
+        let mut scripts: Vec<Node> = mint_policies.iter().map(|p| native_script(*p)).collect();
+        for b in &tw.extra_native_scripts {
+            if let Ok(n) = cx::read(b) {
+                scripts.push(n);
+            }
+        }
         wit_extra.push((1, cx::array(scripts)));
     }
     let mut total_mem = 0u64;
